@@ -11,7 +11,8 @@ Definition shared_ok (allow deep : bool) (h0 : heap) (st : cst) (x : id) : Prop 
   ((exists a, cells h0 x = Some (CAttr a) /\ shared_attr a) \/
    (deep = false /\ exists m md k, cells h0 m = Some (CMeta md) /\ In (k, MObj x) (m_data md)) \/
    (allow = true /\ In x (passed st)) \/
-   (~ wf_dev h0 /\ In x (kept st))).
+   (~ wf_dev h0 /\ In x (kept st)) \/
+   (exists o v0, cells h0 o = Some (CValue v0) /\ v_const v0 = Some x)).
 
 Lemma good_reach allow deep h0 st r x :
   (wf_dev h0 \/ ~ wf_dev h0) ->
@@ -23,12 +24,12 @@ Proof.
   { induction Hx as [|r' y c x Hy IH Hny Hc Hin]; [left; apply F|].
     apply (g_links _ _ _ _ G y c Hny Hc x Hin). }
   destruct K as [K|[K1 K2]]; [left; exact K|right]. split; [exact K1|].
-  destruct K2 as [K2|[K2|[K2|K2]]]; auto.
+  destruct K2 as [K2|[K2|[K2|[K2|K2]]]]; auto 6.
   - right. right. left. split; [apply (g_passed _ _ _ _ G x K2)|exact K2].
   - destruct Hdec as [Wd|Wd].
     + right. right. left. pose proof (g_kept _ _ _ _ G Wd x K2) as K3.
       split; [apply (g_passed _ _ _ _ G x K3)|exact K3].
-    + right. right. right. split; assumption.
+    + right. right. right. left. split; assumption.
 Qed.
 
 Section Graph.
@@ -48,10 +49,11 @@ Section Graph.
   Lemma P_graph_no_capture x :
     wf_dev h0 -> allow = false -> reach (cells (hp st)) (next h0) g' x -> x < next h0 ->
     (exists a, cells h0 x = Some (CAttr a) /\ shared_attr a) \/
-    (deep = false /\ exists m md k, cells h0 m = Some (CMeta md) /\ In (k, MObj x) (m_data md)).
+    (deep = false /\ exists m md k, cells h0 m = Some (CMeta md) /\ In (k, MObj x) (m_data md)) \/
+    (exists o v0, cells h0 o = Some (CValue v0) /\ v_const v0 = Some x).
   Proof.
     intros Wd Ha Hx Hlt. destruct (P_graph_fresh x (or_introl Wd) Hx) as [K|[_ K]]; [lia|].
-    destruct K as [K|[K|[[K _]|[K _]]]]; auto.
+    destruct K as [K|[K|[[K _]|[[K _]|K]]]]; auto.
     - rewrite Ha in K. discriminate.
     - contradiction.
   Qed.
@@ -61,6 +63,7 @@ Section Graph.
     reach (cells (hp st)) (next h0) g' x -> x < next h0 ->
     (exists a, cells h0 x = Some (CAttr a) /\ shared_attr a) \/
     (deep = false /\ exists m md k, cells h0 m = Some (CMeta md) /\ In (k, MObj x) (m_data md)) \/
+    (exists o v0, cells h0 o = Some (CValue v0) /\ v_const v0 = Some x) \/
     ((In x (passed st) \/ In x (kept st)) /\ forall k, ~ In x (owned (cells h0) k g)).
   Proof. apply (graph_clone_closed allow deep h0 Hcl0 fuel g st (Ok g') Hg Hrun g' x eq_refl). Qed.
 
@@ -73,27 +76,43 @@ Section Graph.
   Qed.
 
   Lemma P_graph_clone_edits ops x :
-    ops_sided (col_clone (next h0)) true (hp st) ops -> x < next h0 ->
+    ops_sided (col_clone (next h0)) true (hp st) ops -> ops_no_trename (hp st) ops -> x < next h0 ->
     cells (apply_ops (hp st) ops) x = cells h0 x.
   Proof.
     destruct (graph_clone_good allow deep h0 Hcl0 fuel g st (Ok g') Hg Hrun g' eq_refl) as [G _].
-    intros Hs Hx. apply (clone_edits_frame allow deep h0 Hcl0 st G ops Hs x Hx).
+    intros Hs Hn Hx. apply (clone_edits_frame allow deep h0 Hcl0 st G ops Hs Hn x Hx).
+  Qed.
+
+  Lemma P_graph_clone_edits_nt ops x :
+    ops_sided (col_clone (next h0)) true (hp st) ops -> x < next h0 -> is_tensor (cells h0 x) = false ->
+    cells (apply_ops (hp st) ops) x = cells h0 x.
+  Proof.
+    destruct (graph_clone_good allow deep h0 Hcl0 fuel g st (Ok g') Hg Hrun g' eq_refl) as [G _].
+    intros Hs Hx Hnt. apply (clone_edits_frame_nt allow deep h0 Hcl0 st G ops Hs x Hx Hnt).
+  Qed.
+
+  Lemma P_graph_orig_edits_nt ops x :
+    ops_sided (col_orig (next h0) (next (hp st))) true (hp st) ops -> next h0 <= x -> x < next (hp st) ->
+    is_tensor (cells (hp st) x) = false -> cells (apply_ops (hp st) ops) x = cells (hp st) x.
+  Proof.
+    destruct (graph_clone_good allow deep h0 Hcl0 fuel g st (Ok g') Hg Hrun g' eq_refl) as [G _].
+    intros Hs H1 H2 H3. apply (orig_edits_frame_nt allow deep h0 Hcl0 st G ops Hs x H1 H2 H3).
   Qed.
 
   Lemma P_graph_clone_edits_canon ops k :
-    ops_sided (col_clone (next h0)) true (hp st) ops ->
+    ops_sided (col_clone (next h0)) true (hp st) ops -> ops_no_trename (hp st) ops ->
     gcanon (cells (apply_ops (hp st) ops)) k g = gcanon (cells h0) k g.
   Proof.
     destruct (graph_clone_good allow deep h0 Hcl0 fuel g st (Ok g') Hg Hrun g' eq_refl) as [G _].
-    intros Hs. apply (clone_edits_canon allow deep h0 Hcl0 st G ops k g Hs Hg).
+    intros Hs Hn. apply (clone_edits_canon allow deep h0 Hcl0 st G ops k g Hs Hn Hg).
   Qed.
 
   Lemma P_graph_orig_edits ops x :
-    ops_sided (col_orig (next h0) (next (hp st))) true (hp st) ops -> next h0 <= x -> x < next (hp st) ->
-    cells (apply_ops (hp st) ops) x = cells (hp st) x.
+    ops_sided (col_orig (next h0) (next (hp st))) true (hp st) ops -> ops_no_trename (hp st) ops ->
+    next h0 <= x -> x < next (hp st) -> cells (apply_ops (hp st) ops) x = cells (hp st) x.
   Proof.
     destruct (graph_clone_good allow deep h0 Hcl0 fuel g st (Ok g') Hg Hrun g' eq_refl) as [G _].
-    intros Hs H1 H2. apply (orig_edits_frame allow deep h0 Hcl0 st G ops Hs x H1 H2).
+    intros Hs Hn H1 H2. apply (orig_edits_frame allow deep h0 Hcl0 st G ops Hs Hn x H1 H2).
   Qed.
 End Graph.
 
@@ -143,18 +162,18 @@ Section ModelFn.
 
   Lemma P_model_clone_edits m st m' ops x :
     m < next h0 -> model_clone fuel deep m h0 = (st, Ok m') ->
-    ops_sided (col_clone (next h0)) true (hp st) ops -> x < next h0 ->
+    ops_sided (col_clone (next h0)) true (hp st) ops -> ops_no_trename (hp st) ops -> x < next h0 ->
     cells (apply_ops (hp st) ops) x = cells h0 x.
   Proof.
-    intros Hm H Hs Hx. destruct (P_model_good m st m' Hm H) as [G _].
-    apply (clone_edits_frame false deep h0 Hcl0 st G ops Hs x Hx).
+    intros Hm H Hs Hn Hx. destruct (P_model_good m st m' Hm H) as [G _].
+    apply (clone_edits_frame false deep h0 Hcl0 st G ops Hs Hn x Hx).
   Qed.
 End ModelFn.
 
 Lemma P_functional_pass_pure fuel prog m h0 h' r :
   closed h0 -> m < next h0 ->
   (forall st m', model_clone fuel false m h0 = (st, Ok m') ->
-                 ops_sided (col_clone (next h0)) true (hp st) (prog m')) ->
+                 ops_sided (col_clone (next h0)) true (hp st) (prog m') /\ ops_no_trename (hp st) (prog m')) ->
   functional_pass fuel prog m h0 = (h', r) ->
   (forall x, x < next h0 -> cells h' x = cells h0 x) /\
   (forall k, mcanon (cells h') k m = mcanon (cells h0) k m).
